@@ -513,6 +513,20 @@ func (x *dInst) checkList(name string, l *listz.DList[Val], c *list.List) *space
 	if !eqVals(all, want) {
 		return misQ("DList.All", "wrong-iterator", "full", "%s: All yields %v, container/list %v", ctx, all, want)
 	}
+	// one iterator value walked twice ("calling the iterator again walks the sequence again")
+	seq := l.All()
+	for range seq {
+	}
+	all = all[:0]
+	for v := range seq {
+		all = append(all, v)
+		if len(all) > len(want)+2 {
+			break
+		}
+	}
+	if !eqVals(all, want) {
+		return misQ("DList.All", "wrong-iterator", "second-walk", "%s: the iterator returned by All, walked a second time, yields %v, container/list %v", ctx, all, want)
+	}
 	var first []Val
 	l.All()(func(v Val) bool { first = append(first, v); return false }) // explicit call: no runtime check in the way
 	if len(first) > 1 {
